@@ -169,4 +169,4 @@ static void blk_lookalike_signers(void) {
 		CMS_CERTS_AND_KEY sw[2] = { { cert[a], cl[a], &CK[b] }, { cert[b], cl[b], &CK[a] } }; ml = 0; venv_reset(9700 + c * 2 + order); if (cms_sign(MSG, &ml, sw, 2, OID_cms_data, CONTENT, 33, NULL, 0) == 1) { r = cms_verify(MSG, ml, NULL, 0, NULL, 0, &ct, &cc, &ccl, &certs, &certl, &crls, &crll, &sis, &sil); vh_eval(vh_mix(9800 + c * 2 + order)); if (r == 1) { snprintf(key, sizeof key, "C16:sign-lookalike:%s:signatures-by-each-others-keys-verify", LK[c].name); vh_viol(key, "\"order\":%d", order); } } }
 }
 static void body(void) { blk_sign(); blk_lookalike_signers(); blk_envelop(); blk_lookalike(); blk_encrypt(); blk_sign_envelop(); }
-int main(int argc, char **argv) { vh_init(argc, argv); if (!freopen("/dev/null", "w", stderr)) {} setup(); vh_guarded("C16", body, 120); return vh_finish(); }
+int main(int argc, char **argv) { vh_init(argc, argv); if (!freopen("/dev/null", "w", stderr)) {} setup(); vh_guarded("C16", body, vh_thorough ? 1200 : 120); return vh_finish(); }
